@@ -17,3 +17,27 @@ Theorem dump_matches_go :
 Proof. exact C19b.dump_matches_go. Qed.
 Print Assumptions dump_matches_go.
 
+
+(* ---- ties to the constant tables regenerated from the Go sources (tools/gotables -> GoTables.v) ---- *)
+From Coq Require Import List String ZArith NArith Bool. From Bexpr Require Import Base Strconv Ast Univ Eval Api Dump GoTables TableTie. Import ListNotations.
+
+Theorem match_operator_names :
+  forall op : matchop, assoc (mop_go op) go_string_MatchOperator = Some (mop_name op).
+Proof. exact TableTie.match_operator_names. Qed.
+Print Assumptions match_operator_names.
+
+Theorem binary_operator_names :
+  assoc "BinaryOpAnd" go_string_BinaryOperator = Some (bop_name BAnd) /\
+  assoc "BinaryOpOr" go_string_BinaryOperator = Some (bop_name BOr) /\ assoc "UnaryOpNot" go_string_UnaryOperator = Some "Not".
+Proof. exact TableTie.binary_operator_names. Qed.
+Print Assumptions binary_operator_names.
+
+Theorem collection_names :
+  assoc "CollectionOpAll" go_const_CollectionOperator = Some (cop_name CAll) /\
+  assoc "CollectionOpAny" go_const_CollectionOperator = Some (cop_name CAny) /\
+  go_const_CollectionBindMode =
+  [("CollectionBindDefault", "Default"); ("CollectionBindIndex", "Index"); ("CollectionBindValue", "Value");
+   ("CollectionBindIndexAndValue", "Index & Value")].
+Proof. exact TableTie.collection_names. Qed.
+Print Assumptions collection_names.
+
